@@ -49,10 +49,10 @@ func cat(us ...[]Unit) []Unit {
 func init() {
 	clusterCheck("C01",
 		func() []Unit {
-			return scUnits(1, "elect3", "elect2", "write3", "crash3", "majority-restart", "transfer", "member", "fig8", "revote3", "crash4", "elect3-hb", "crash3-hb")
+			return scUnits(1, "elect3", "elect2", "write3", "crash3", "majority-restart", "transfer", "member", "fig8", "revote3", "crash4", "elect3-hb", "crash3-hb", "transfer-nonvoter1", "transfer-nonvoter3")
 		},
 		func() []Unit {
-			return cat(scUnits(2, "elect3", "elect2", "write3", "crash3", "majority-restart", "transfer", "member", "member-race", "fig8", "revote3", "crash4", "member-sor", "elect3-hb", "crash3-hb", "transfer-hb"), scUnits(1, "elect5"))
+			return cat(scUnits(2, "elect3", "elect2", "write3", "crash3", "majority-restart", "transfer", "member", "member-race", "fig8", "revote3", "crash4", "member-sor", "elect3-hb", "crash3-hb", "transfer-hb", "transfer-nonvoter1", "transfer-nonvoter3"), scUnits(1, "elect5"))
 		})
 	clusterCheck("C02",
 		func() []Unit {
@@ -124,9 +124,9 @@ func init() {
 	}})
 	register(&Check{Prop: "C14", Level: "model_checking", Rule: timedRule, Assumptions: timedAssumptions, Units: func(tier string) []Unit {
 		if tier == "thorough" {
-			return scUnits(1, "prevote3-1", "prevote3-5", "prevote3-20", "prevote3-leader", "prevote5-5", "prevote3-mixed", "prevote5-pair")
+			return scUnits(1, "prevote3-1", "prevote3-5", "prevote3-20", "prevote3-leader", "prevote5-5", "prevote3-mixed", "prevote5-pair", "prevote4-demoted")
 		}
-		return append(scUnits(1, "prevote3-1", "prevote3-5", "prevote3-leader", "prevote3-mixed"), scUnit("prevote5-pair", 0))
+		return append(scUnits(1, "prevote3-1", "prevote3-5", "prevote3-leader", "prevote3-mixed"), scUnit("prevote5-pair", 0), scUnit("prevote4-demoted", 0))
 	}})
 	fineRule := "deviation-bounded DFS where, from the scripted race on, every select / lock / wait of every thread is a branching point (preemptions, alternative ready select cases and free scheduling choices each cost one deviation); a case is one complete execution; distinct = distinct final outcome"
 	fineAssumptions := []string{
@@ -162,8 +162,8 @@ func init() {
 			return scUnits(1, "conv-crash3", "conv-snap3", "conv-snap3-mono", "conv-stale-suffix", "conv-member", "conv-majority-restart", "conv-restore3-lagging", "conv-promote-cut")
 		}})
 	clusterCheck("C18",
-		func() []Unit { return scUnits(1, "notify3") },
-		func() []Unit { return scUnits(2, "notify3") })
+		func() []Unit { return scUnits(1, "notify3", "notify3-back") },
+		func() []Unit { return scUnits(2, "notify3", "notify3-back") })
 	clusterCheck("C09",
 		func() []Unit {
 			return scUnits(1, "verify-nonvoter", "verify3", "verify5-pair", "verify-stale-ack", "verify-deposed", "verify-addvoter")
